@@ -67,6 +67,42 @@ class Scan(ast.NodeVisitor):
         if locked:
             self.depth -= 1
 
+    def _visit_block(self, body: list[ast.stmt]) -> None:
+        """`await self.mutex.acquire()` followed by `try: ... finally: self.mutex.release()` is
+        a critical section just like `async with self.mutex` (released on every exit)."""
+        pending = False
+        for st in body:
+            is_acq = isinstance(st, ast.Expr) and isinstance(st.value, ast.Await) and \
+                isinstance(st.value.value, ast.Call) and isinstance(
+                    st.value.value.func, ast.Attribute) and st.value.value.func.attr == \
+                "acquire" and is_self_attr(st.value.value.func.value, "mutex")
+            if is_acq:
+                pending = True
+                continue
+            if pending and isinstance(st, ast.Try) and any(
+                    isinstance(c, ast.Call) and isinstance(c.func, ast.Attribute)
+                    and c.func.attr == "release" and is_self_attr(c.func.value, "mutex")
+                    for f_ in st.finalbody for c in ast.walk(f_)):
+                self.acquires += 1
+                self.depth += 1
+                for x in st.body:
+                    self.visit(x)
+                self.depth -= 1
+                for h in st.handlers:
+                    self.visit(h)
+                for x in st.orelse + st.finalbody:
+                    self.visit(x)
+                pending = False
+                continue
+            pending = False
+            self.visit(st)
+
+    def visit_AsyncFunctionDef(self, n: ast.AsyncFunctionDef) -> None:
+        self._visit_block(n.body)
+
+    def visit_FunctionDef(self, n: ast.FunctionDef) -> None:
+        self._visit_block(n.body)
+
     def visit_Call(self, n: ast.Call) -> None:
         f = n.func
         if isinstance(f, ast.Attribute):
@@ -239,6 +275,25 @@ def section_harness(method: str):
             return coro(go)
         I.ex.contracts[C.UDSClient.request_unsafe] = inner
         I.ex.contracts[C.UDSClient.reconnect_unsafe] = inner
+        # explicit lock operations (asyncio.Lock contract)
+        I.ex.stubs[("lock", "locked")] = lambda I2, r, a, k: VBool(bool(I2.ghost["held"]))
+
+        def acquire(I2: Interp, r: V, a: list[V], k: dict[str, V]) -> V:
+            def go() -> V:
+                I2.prove("P2-acquire-only-when-not-held(non-re-entrant)",
+                         z3.BoolVal(not I2.ghost["held"]))
+                I2.ghost["held"] = True
+                I2.ghost["acquired"] += 1
+                return VBool(True)
+            return coro(go)
+        I.ex.stubs[("lock", "acquire")] = acquire
+
+        def release(I2: Interp, r: V, a: list[V], k: dict[str, V]) -> V:
+            I2.prove("P2-release-only-by-the-holder", z3.BoolVal(bool(I2.ghost["held"])))
+            I2.ghost["held"] = False
+            I2.ghost["released"] += 1
+            return NONE
+        I.ex.stubs[("lock", "release")] = release
         client = VObj(C.UDSClient, {"mutex": VObj(Stub, {}, lazy=True, tag="lock"),
                                     "transport": VObj(Stub, {}, lazy=True, tag="transport")})
         req = VObj(S.RawRequest, {"_pdu": I.fresh_bytes("q", minlen=1)})
@@ -270,7 +325,7 @@ def native_replay(unit: str, obligation: str, model: dict) -> tuple[bool, str]:
     from gallia.services.uds.core.client import UDSClient
     from gallia.transports.base import BaseTransport
     if "_tester_present:transport-io" not in obligation:
-        return False, "no native scenario for this call site (the obligation is syntactic)"
+        return native_interleavings()
     log: list[str] = []
 
     class T(BaseTransport, scheme="c05"):
@@ -308,6 +363,144 @@ def native_replay(unit: str, obligation: str, model: dict) -> tuple[bool, str]:
     asyncio.run(go())
     inter = any(e.startswith("write:") for e in log[1:-1]) if len(log) >= 3 else False
     return inter, f"transport trace {log}: a tester-present write landed inside another exchange"
+
+
+def native_interleavings() -> tuple[bool, str]:
+    """Three schedules on the real client over a tracing transport: (1) a caller cancelled in the
+    middle of its exchange, then a second caller; (2) a second caller arriving during the retry
+    backoff of the first; (3) the cyclic tester-present worker firing during a slow exchange.
+    An exchange = everything between the first write of a request and its final read."""
+    import asyncio
+    import logging
+    logging.disable(logging.CRITICAL)
+    import gallia.command  # noqa: F401
+    from gallia.services.uds import ecu as E
+    from gallia.services.uds.core import service as S
+    from gallia.services.uds.core.client import UDSClient, UDSRequestConfig
+    from gallia.transports.base import BaseTransport
+
+    def mk_transport(script: dict[str, list[Any]], trace: list[str]) -> Any:
+        class T(BaseTransport, scheme="c05-trace"):
+            def __init__(self) -> None:
+                self.mutex = asyncio.Lock()
+                self.is_closed = False
+                self.pending: list[Any] = []
+
+            @classmethod
+            async def connect(cls, target: Any, timeout: float | None = None) -> Any:
+                return cls()
+
+            async def close(self) -> None:
+                pass
+
+            async def reconnect(self, timeout: float | None = None) -> Any:
+                return self
+
+            async def write(self, data: bytes, timeout: float | None = None,
+                            tags: Any = None) -> int:
+                trace.append("W " + data.hex())
+                steps = script.get(data.hex(), [(0.0, "7f" + data.hex()[:2] + "11")])
+                self.pending = list(steps.pop(0) if steps and isinstance(steps[0], list)
+                                    else steps)
+                return len(data)
+
+            async def read(self, timeout: float | None = None, tags: Any = None) -> bytes:
+                if not self.pending:
+                    await asyncio.sleep(timeout or 0.05)
+                    raise TimeoutError
+                delay, reply = self.pending.pop(0)
+                if delay is None:
+                    await asyncio.sleep(timeout or 0.05)
+                    raise TimeoutError
+                await asyncio.sleep(delay)
+                trace.append("R " + reply)
+                return bytes.fromhex(reply)
+        return T()
+
+    def interleaved(trace: list[str], first: str) -> str | None:
+        """a write of another request between W <first> and the last read of its exchange"""
+        try:
+            i = trace.index("W " + first)
+        except ValueError:
+            return None
+        ends = [k for k, e in enumerate(trace) if e.startswith("R ") and e[2:4] in (
+            format(int(first[:2], 16) + 0x40, "02x"), "7f") and k > i]
+        if not ends:
+            return None
+        j = ends[-1] if first != "1001" else ends[0]
+        foreign = [e for e in trace[i + 1:j] if e.startswith("W ") and e[2:] != first]
+        return foreign[0] if foreign else None
+
+    async def s1() -> str | None:
+        trace: list[str] = []
+        t = mk_transport({"1001": [(None, "")], "3e00": [(0.0, "7e00")]}, trace)
+        c = UDSClient(t, timeout=0.3, max_retry=0)
+        a = asyncio.ensure_future(c.request(S.DiagnosticSessionControlRequest(1)))
+        await asyncio.sleep(0.05)
+        a.cancel()
+        try:
+            await a
+        except BaseException:  # noqa: BLE001
+            pass
+        try:
+            await asyncio.wait_for(c.request(S.TesterPresentRequest()), 1.0)
+        except TimeoutError:
+            return ("a caller cancelled in the middle of its exchange leaves the client locked: "
+                    "the next request made no progress within 1 s")
+        except Exception:  # noqa: BLE001
+            pass
+        return None
+
+    async def s2() -> str | None:
+        trace: list[str] = []
+        script = {"1001": [[(None, "")], [(0.0, "5001003201f4")]], "3e00": [(0.0, "7e00")]}
+        t = mk_transport(script, trace)
+        c = UDSClient(t, timeout=0.05, max_retry=1)
+        a = asyncio.ensure_future(c.request(S.DiagnosticSessionControlRequest(1)))
+        await asyncio.sleep(0.12)  # inside A's backoff
+        b = asyncio.ensure_future(c.request(S.TesterPresentRequest()))
+        for f in (a, b):
+            try:
+                await asyncio.wait_for(f, 3)
+            except Exception:  # noqa: BLE001
+                pass
+        w = [e for e in trace if e.startswith("W ")]
+        if w[:3] == ["W 1001", "W 3e00", "W 1001"]:
+            return (f"a second caller transmitted inside the first caller's exchange (during "
+                    f"its retry backoff): {trace}")
+        return None
+
+    async def s3() -> str | None:
+        trace: list[str] = []
+        script = {"1001": [(0.0, "7f1078"), (0.4, "5001003201f4")], "3e00": [(0.0, "7e00")],
+                  "3e80": []}
+        t = mk_transport(script, trace)
+        e = E.ECU(t, timeout=1.0, max_retry=0)
+        await e.start_cyclic_tester_present(0.1)
+        try:
+            await e.request(S.DiagnosticSessionControlRequest(1))
+        except Exception:  # noqa: BLE001
+            pass
+        await e.stop_cyclic_tester_present()
+        try:
+            i = trace.index("W 1001")
+            j = trace.index("R 5001003201f4")
+        except ValueError:
+            return None
+        foreign = [x for x in trace[i + 1:j] if x.startswith("W ")]
+        if foreign:
+            return (f"the tester-present worker wrote {foreign[0][2:]} between a request and "
+                    f"its final reply: {trace[i:j + 1]}")
+        return None
+
+    async def go() -> tuple[bool, str]:
+        for sc in (s1, s2, s3):
+            bad = await sc()
+            if bad:
+                return True, bad
+        return False, "cancellation, retry backoff and cyclic tester present keep exchanges apart"
+    del interleaved, UDSRequestConfig
+    return asyncio.run(go())
 
 
 def native_search(unit: str, obligation: str, seed: int) -> dict | None:
